@@ -32,6 +32,8 @@ func c17Setup(env *core.Env) {
 	c17Hosts = append(c17Hosts, corp.Hosts...)
 }
 
+var c17V6Hosts = []string{"::1", "::", "2001:db8::1", "fe80::1", "::ffff:192.168.1.10", "2001:db8:0:0:0:0:0:1", "2a00:1450:4001:81b::200e", "64:ff9b::1.2.3.4"}
+
 func c17RegDomain(host string) string {
 	if host == "" {
 		return ""
@@ -366,6 +368,10 @@ func init() {
 			for k := 0; k < 8; k++ {
 				c17CheckHostname(c, strings.ToLower(c17Host(c)))
 			}
+			// IP literals of the other family are host names of DNS-level
+			// requests too (PTR-style look-ups, clients that ask for anything).
+			c17CheckHostname(c, c17V6Hosts[c.Rng.Intn(len(c17V6Hosts))])
+			c.Event("ipv6_hostname_requests", 1)
 			if len(corp.Requests) > 0 {
 				r := corp.Requests[(idx*7)%len(corp.Requests)]
 				// Only hierarchical URLs are in the contract (about:blank, data: ... are not).
